@@ -87,10 +87,11 @@ def r02a(ctx: Context) -> None:
                     rule.ok(key, "run-time pattern (not a constant sentinel)")
                     continue
                 bad = _letters(value)
+                name = name if name.startswith(("'", '"')) else f"{name} = {value!r}"
                 if bad:
-                    rule.fail(f"sentinel {name}", where(func, node), f"{func.short} deletes every occurrence of {name} = {value!r} from the regenerated document, but {bad[0]} is a character a document can contain: such characters in the source are lost when the file is fixed")
+                    rule.fail(f"sentinel {value!r}", where(func, node), f"{func.short} deletes every occurrence of {name} from the regenerated document, but {bad[0]} is a character a document can contain: such characters in the source are lost when the file is fixed")
                 else:
-                    rule.ok(f"sentinel {name}", f"{value!r} is not document text")
+                    rule.ok(f"sentinel {value!r}", f"{value!r} is not document text")
     helper = prog.cls(PH)
     referenced: Set[str] = set()
     for method in helper.methods.values():
@@ -99,6 +100,9 @@ def r02a(ctx: Context) -> None:
         for node in walk_local(method.node):
             if isinstance(node, ast.Attribute) and isinstance(node.value, ast.Name) and node.value.id == helper.name:
                 referenced.add(node.attr)
+            elif isinstance(node, ast.Constant) and isinstance(node.value, str) and node.value:
+                # the helper's named characters are analysed as the literals they stand for
+                referenced.update(name for name, bound in helper.class_attrs.items() if isinstance(bound, ast.Constant) and bound.value == node.value)
     markers = 0
     for attr in sorted(referenced):
         plain = attr if attr in helper.class_attrs else "__" + attr.split("__")[-1]
